@@ -144,9 +144,9 @@ Proof.
     intros H; try discriminate; injection H as <-; alert_in.
 Qed.
 
-Lemma set_peer_certificate_good o certs e : set_peer_certificate o certs = Some e -> good_exn o e.
+Lemma set_peer_certificate_good o certs e : set_peer_certificate true o certs = Some e -> good_exn o e.
 Proof.
-  unfold set_peer_certificate. destruct certs; [|destruct (o_load o)];
+  unfold set_peer_certificate. destruct certs; [|destruct (o_load o =? 0); [|destruct (o_load o =? 2)]];
     intros H; try discriminate; injection H as <-; alert_in.
 Qed.
 
@@ -232,14 +232,14 @@ Qed.
 Lemma client_handle_certificate_ok c msg :
   head_is 11 msg ->
   t_state c = CLIENT_EXPECT_CERTIFICATE_REQUEST_OR_CERTIFICATE \/ t_state c = CLIENT_EXPECT_CERTIFICATE -> wf_ctx c ->
-  lgood o c msg (client_handle_certificate g c o msg).
+  lgood o c msg (client_handle_certificate true g c o msg).
 Proof.
   intros Hh Hs Hw. assert (Hgen : t_gen c = 2).
   { unfold wf_ctx in Hw. destruct Hs as [Hs|Hs]; rewrite Hs in Hw; exact Hw. }
   unfold client_handle_certificate. apply lgood_parsed; [apply pres_pull_certificate; exact Hh|].
   intros certs rest E. apply pull_certificate_exact in E.
   apply lgood_need; [lia|].
-  destruct (set_peer_certificate o certs) as [e|] eqn:Es; [cbn [lgood]; eapply set_peer_certificate_good; eauto|].
+  destruct (set_peer_certificate true o certs) as [e|] eqn:Es; [cbn [lgood]; eapply set_peer_certificate_good; eauto|].
   cbn [lgood]. unfold wf_ctx, set_state, set_peer_cert. cbn [t_state t_gen t_buf t_peer_cert]. auto.
 Qed.
 
@@ -303,7 +303,7 @@ Qed.
 
 Lemma server_handle_certificate_ok c msg :
   head_is 11 msg -> t_state c = SERVER_EXPECT_CERTIFICATE -> wf_ctx c ->
-  lgood o c msg (server_handle_certificate g c o msg).
+  lgood o c msg (server_handle_certificate true g c o msg).
 Proof.
   intros Hh Hs Hw. unfold wf_ctx in Hw. rewrite Hs in Hw.
   unfold server_handle_certificate. apply lgood_parsed; [apply pres_pull_certificate; exact Hh|].
@@ -311,7 +311,7 @@ Proof.
   apply lgood_need; [lia|].
   destruct certs as [|d r].
   - cbn [lgood]. unfold wf_ctx, set_state. cbn [t_state t_gen t_buf]. auto.
-  - destruct (set_peer_certificate o (d :: r)) as [e|] eqn:Es; [cbn [lgood]; eapply set_peer_certificate_good; eauto|].
+  - destruct (set_peer_certificate true o (d :: r)) as [e|] eqn:Es; [cbn [lgood]; eapply set_peer_certificate_good; eauto|].
     cbn [lgood]. unfold wf_ctx, set_state, set_peer_cert. cbn [t_state t_gen t_buf t_peer_cert]. auto.
 Qed.
 
@@ -514,7 +514,7 @@ Definition witness_cv : list Z := [15; 0; 0; 8; 4; 3; 0; 4; 1; 2; 3; 4].
 (* oracle: EC certificate key, signature verifies, then service_identity reads certificate.extensions:
    4 = the subjectAltName extension does not parse (ValueError), 5 = a dNSName such as "*.com" or "1.2.3.4"
    (CertificateError, raised a second time inside verify_certificate's own except handler) *)
-Definition witness_orc (v : Z) : orc := mkOrc [] 0 0 (-1) true true 3 true v true.
+Definition witness_orc (v : Z) : orc := mkOrc [] 0 0 (-1) true 1 3 true v true.
 
 Theorem handle_message_refuted :
   wf_cfg cfg_default_client /\ wf0 witness_ctx /\
@@ -535,3 +535,55 @@ Example ee_accepted :
     [orc0] [8; 0; 0; 9; 0; 7; 0; 57; 0; 3; 1; 2; 3]
   = MOk (mkCtx CLIENT_EXPECT_CERTIFICATE_REQUEST_OR_CERTIFICATE [] false None false 2 false).
 Proof. vm_compute. reflexivity. Qed.
+
+(* ---- sessions of receive_datagram calls: with the gate of 54d8ff0 nothing reaches the TLS engine once a close
+   is pending, whatever state the failed handler left behind ---- *)
+Theorem crypto_session_total g (Hg : wf_cfg g) after_exn : forall chunks c closing, wf0 c ->
+  match crypto_session true true after_exn g c closing chunks with
+  | NOk c' => wf0 c'
+  | NClosing _ _ => True
+  | NExn _ => False
+  end.
+Proof.
+  induction chunks as [|[[orcs ft] data] r IH]; intros c closing Hw; cbn [crypto_session].
+  - destruct closing as [[code cft]|]; auto.
+  - destruct closing as [[code cft]|]; [exact I|].
+    pose proof (crypto_deliver_total g c orcs ft data Hg Hw) as H.
+    destruct (crypto_deliver true g c orcs ft data) as [c'|code ft'| |k]; try contradiction.
+    + apply IH. right. exact H.
+    + (* closing: every later chunk is dropped by the gate *)
+      clear. generalize (after_exn c). induction r as [|[[o f] d] r IHr]; intros c0; cbn [crypto_session]; exact I.
+Qed.
+
+(* ... and WITHOUT the gate (the tree before 54d8ff0): finding T10.  A client waiting for the ServerHello gets one
+   without key_share: AlertIllegalParameter, raised AFTER `self._key_schedule_proxy = None`; the connection has a
+   close pending but still processes the next datagram, whose ServerHello reaches `None.select(...)`. *)
+Definition sh_no_key_share : list Z :=
+  [2; 0; 0; 46; 3; 3] ++ repeat 0 32 ++ [0; 19; 1; 0; 0; 6; 0; 43; 0; 2; 3; 4].
+Definition t10_ctx : tctx := mkCtx CLIENT_EXPECT_SERVER_HELLO [] false None true 1 false.
+(* what _client_handle_hello leaves behind when it raises after selecting the key schedule (tie: pre_fail cases) *)
+Definition t10_after (c : tctx) : tctx := mkCtx (t_state c) [] (t_resumed c) None false (t_gen c) (t_peer_cert c).
+
+Theorem crypto_session_refuted :
+  wf_cfg cfg_default_client /\ wf0 t10_ctx /\
+  crypto_session true false t10_after cfg_default_client t10_ctx None
+    [([orc0], FT_CRYPTO, sh_no_key_share); ([orc0], FT_CRYPTO, sh_no_key_share)] = NExn TX_AttributeError /\
+  crypto_session true true t10_after cfg_default_client t10_ctx None
+    [([orc0], FT_CRYPTO, sh_no_key_share); ([orc0], FT_CRYPTO, sh_no_key_share)]
+    = NClosing (EC_CRYPTO_ERROR + AD_illegal_parameter) FT_CRYPTO.
+Proof.
+  split; [exact wf_cfg_default_client|]. split; [right; vm_compute; auto|].
+  split; vm_compute; reflexivity.
+Qed.
+
+(* ---- the tree WITHOUT docs/C05-fix-9.patch: finding T11.  A client waiting for the Certificate; the message holds one
+   3-byte entry; oracle: x509.load_der_x509_certificate raises x509.InvalidVersion (not a ValueError). *)
+Definition t11_ctx : tctx := mkCtx CLIENT_EXPECT_CERTIFICATE [] false None false 2 false.
+Definition t11_cert : list Z := [11; 0; 0; 12; 0; 0; 0; 8; 0; 0; 3; 48; 1; 0; 0; 0].
+Definition t11_orc : orc := mkOrc [] 0 0 (-1) true 2 1 true 0 true.
+
+Theorem set_peer_certificate_refuted :
+  wf0 t11_ctx /\
+  handle_message false cfg_default_client t11_ctx [t11_orc] t11_cert = MExn (XOther TX_InvalidVersion) /\
+  handle_message true cfg_default_client t11_ctx [t11_orc] t11_cert = MExn (XAlert AD_bad_certificate).
+Proof. split; [right; vm_compute; auto|]. split; vm_compute; reflexivity. Qed.
